@@ -116,14 +116,14 @@ Theorem C06_loop_satisfies_oracle : forall c tl, cfg_nocopy c -> text_safe c -> 
 Proof. exact loop_turns. Qed.
 Print Assumptions C06_loop_satisfies_oracle.
 
-(* ... and for a whole connection as the harness scripts it (no password
-   authentication, first packet not an SSLRequest, any startup packet, any middleware
-   outcomes, any byte stream): the model's log passes [oracle_turns] *)
+(* ... and for a whole connection as the harness scripts it (with or without password
+   authentication and whatever its outcome, first packet not an SSLRequest, any startup
+   packet, any middleware outcomes, any byte stream): the model's log passes [oracle_turns] *)
 Theorem C06_model_satisfies_oracle : forall sc,
-  sc_auth sc = None -> case_nocopy sc = true ->
+  case_nocopy sc = true ->
   (forall v after rest, start (cfg_of_case sc) (sc_raw sc) = Some (v, after, rest) -> v <> version_ssl) ->
   oracle_turns sc (run_case sc) = true.
-Proof. exact oracle_turns_model. Qed.
+Proof. exact oracle_turns_model_auth. Qed.
 Print Assumptions C06_model_satisfies_oracle.
 
 (* non-vacuity: a case with a failing Parse, skipped Bind/Execute, Sync, a Query with
